@@ -6,4 +6,10 @@ namespace Fsm.Fix
 /-- F1: validator rejects "." and ".." -/
 def f1 : Bool := true
 
+/-- F2: metadata-only receive advances the id counter for the listing name too -/
+def f2 : Bool := true
+
+/-- companion of F6: a selected directory is forwarded once in metadata-only mode -/
+def f6b : Bool := true
+
 end Fsm.Fix
